@@ -271,10 +271,21 @@ package bebop
 //@   modifies nothing
 
 // The bit-flag expression parser and evaluator work on the token slice they are given and on the enum options
-// read so far; they have no access to the tokenizer (assumed frame; they are not under contract, see C15).
-//@ assume-func parseBitflagExpr
+// read so far: no panic (index, slice, negative shift count) and nothing but fresh memory is written. What they
+// compute is not specified (C15).
+//@ func parseBitflagExpr
 //@   modifies fresh(), any(string), alloc()
-//@ assume-func evaluateBitflagExpr
+//@ func parseParenExpr
+//@   requires 0 <= j && j <= len(tokens)
+//@   ensures err == nil ==> 0 <= newI && newI <= len(tokens)
+//@   invariant loop 1: startJ <= j && j <= len(tokens) && 0 <= startJ
+//@   modifies fresh(), any(string), alloc()
+//@ func evaluateBitflagExpr
+//@   modifies fresh(), any(string), alloc()
+// generic over the enum's base type: the bodies are verified once, abstractly over the type parameter
+//@ func evaluateBitflagExpSigned
+//@   modifies fresh(), any(string), alloc()
+//@ func evaluateBitflagExprUnsigned
 //@   modifies fresh(), any(string), alloc()
 
 //@ func readError
